@@ -21,7 +21,10 @@ RULE = ("target find_cuts requests (integer-kappa circuits, compared exactly wit
         "registry, both module-level function tables and the decomposition registry after every call, global RNG states before/after; distinct by payload; "
         "deterministic families: targets with a binding max_gamma / max_backjumps limit before and after calls with no limit at all (max_gamma = inf, "
         "1e300, huge max_backjumps), one cut kind only or limits of zero; sessions that hand one DeviceConstraints (and one OptimizationParameters) "
-        "object to every call - circuits narrower than the device, wider ones, then the target - compared with the history-free call on fresh equal objects")
+        "object to every call - circuits narrower than the device, wider ones, then the target - compared with the history-free call on fresh equal objects; "
+        "sessions that hand one QuantumCircuit object to several calls (identical request repeated, other settings in between; solutions of wire cuts "
+        "only, gate cuts only, both) compared with the call on a freshly built equal circuit; exact-weight generation for problems with 7-9 "
+        "observables in several bases (PauliList inputs, separated and unseparated form) repeated in fresh interpreters under two PYTHONHASHSEEDs")
 ASSUMPTIONS = ["Python aliasing and interpreter-level state are outside the Lean model; they are observed by the runtime monitors of this check",
                "the seeded numpy Generator stream is a function of the integer seed (numpy's contract)"]
 LEVEL_TEXT = ("6 Lean 4 theorems over an explicit-global-state model (every call returns the globals it was given, hence outputs are independent of "
@@ -122,10 +125,76 @@ def _session_family():
                            "always_oracle": True})
 
 
+RING5 = [(i, (i + 1) % 5) for i in range(5)]
+TWO_BLOCKS = [(0, 1), (1, 2), (0, 2), (2, 3), (2, 4), (3, 4)]   # blocks {0,1,2} and {3,4} joined through qubit 2: one wire cut beats two gate cuts
+
+
+def _circuit_family():
+    """deterministic: the caller keeps ONE QuantumCircuit object and hands it to find_cuts again and again - the identical request
+    repeated, the same circuit under other settings (other width / seed / cut kinds) in between, other circuits in between - and then
+    makes the target request with it; the answer must be the one obtained for a freshly built, equal circuit that no call has seen.
+    The targets cover the three shapes of a solution: wire cuts only, gate cuts only, both"""
+    sc = [9, 4, 2]
+    fams = [
+        # optimum = one wire cut; the identical request twice before
+        (_cxs(5, FAN_IN, 3, 3), [_cxs(5, FAN_IN, 3, 3), _cxs(5, FAN_IN, 3, 3)], ["circuit"]),
+        # one wire cut (16) against two gate cuts (81); before: the same object under another width and seed, and another circuit
+        (_cxs(5, TWO_BLOCKS, 3, 7), [_cxs(5, TWO_BLOCKS, 4, 3), _cxs(4, _ladder(4), 2, 1), _cxs(5, TWO_BLOCKS, 3, 7)], ["circuit"]),
+        # wire cuts only by request (gate_lo=False); before: the same object with gate cuts only, then with wire cuts only
+        (_cxs(5, RING5, 3, 1, gate_lo=False), [_cxs(5, RING5, 3, 1, wire_lo=False), _cxs(5, RING5, 3, 1, gate_lo=False)],
+         ["circuit", "constraints"]),
+        # gate cuts only
+        (_cxs(6, _ladder(6), 2, 2, wire_lo=False), [_cxs(6, _ladder(6), 2, 2, wire_lo=False), _cxs(6, _ladder(6), 3, 5)], ["circuit"]),
+        # gate cuts and wire cuts in one solution; circuit, constraints and parameters objects all kept by the caller
+        (_cxs(MIXED[1][0], MIXED[1][3], MIXED[1][1], MIXED[1][2], max_backjumps=10000),
+         [_cxs(MIXED[1][0], MIXED[1][3], MIXED[1][1], MIXED[1][2], max_backjumps=10000), _cxs(3, _ladder(3), 3, 5, max_backjumps=10000)],
+         ["circuit", "constraints", "params"]),
+    ]
+    for tgt, hist, share in fams:
+        yield ("history", {"target": tgt, "history": hist, "session": {"share": share}, "scramble": list(sc), "fresh": False,
+                           "always_oracle": True})
+
+
+def _obs_problem(nq, instrs, part, obs, pool_idx, form="dict", qregs=None):
+    return {"nq": nq, "qregs": qregs or [nq], "instrs": instrs, "labels": list(part), "pool_idx": list(pool_idx),
+            "obs": [{"l": o, "p": 0} for o in obs], "idle": [], "part": list(part), "form": form, "N": None, "seed": 1}
+
+
+def _g(name, *qs, params=None):
+    d = {"name": name, "qubits": list(qs)}
+    if params is not None:
+        d["params"] = list(params)
+    return d
+
+
+def _observables_family():
+    """deterministic: exact-weight generation for problems with many observables (6-8 distinct ones per partition after restriction, in
+    several measurement bases, with repeats and the identity), so that each partition has several commuting groups whose order is
+    observable in the order of the subexperiments; generated in this process (before and after a history) and in fresh interpreters
+    started with two different PYTHONHASHSEEDs (string hashing differs from interpreter to interpreter; CPython picks one at random by
+    default) - a caller generates in one process and reconstructs in another, so the lists must be identical.  The observables are
+    handed over as a PauliList (the documented type), never as a set or list of Pauli"""
+    sc = [3, 8, 1]
+    probs = [
+        # three partitions, two cut gates, string labels, a repeated observable and the identity
+        _obs_problem(5, [_g("h", 0), _g("cx", 0, 1), _g("sx", 2), _g("cz", 1, 2), _g("cx", 2, 3), _g("h", 4), _g("cx", 3, 4), _g("ry", 4, params=[0.6])],
+                     [0, 0, 1, 1, 2], ["ZZIII", "XXIII", "IYZII", "IIXYI", "ZIIXZ", "YIIZX", "IIIII", "XXIII", "IZYIY"], [0, 1, 4],
+                     qregs=[2, 3]),
+        # the unseparated form: one circuit with its cut gate, the observables of the whole circuit
+        _obs_problem(3, [_g("h", 0), _g("cx", 0, 1), _g("ry", 2, params=[0.5]), _g("cx", 1, 2), _g("sx", 1)],
+                     [0, 0, 1], ["ZZI", "XXI", "IYY", "ZIZ", "YXI", "IIX", "XZY"], [0, 1], form="single"),
+    ]
+    for p in probs:
+        yield ("generate", {"problem": p, "history": [_cxs(4, _ladder(4), 2, 1)], "scramble": list(sc), "fresh": True, "hashseeds": [1, 3],
+                            "always_oracle": True})
+
+
 def cases(rng, tier):
     N = 36 if tier == "quick" else 300
     yield from _limits_family()
     yield from _session_family()
+    yield from _circuit_family()
+    yield from _observables_family()
     for _ in range(2 if tier == "quick" else 8):
         yield ("history", {"target": _mixed_target(rng), "history": [cutfind.gen_case(rng, tier) for _ in range(2)],
                            "scramble": [rng.randrange(1 << 30), rng.randrange(1 << 30), rng.randint(0, 50)], "fresh": True, "hashseeds": True,
@@ -215,15 +284,58 @@ def _diff(x, y):
     return " [differs in: " + ", ".join(f"{k} {json.dumps(x['ok'].get(k))[:60]} vs {json.dumps(y['ok'].get(k))[:60]}" for k in ks if k != "bases") + "]"
 
 
-def _run_with(payload, cons=None, opt=None):
-    """cutfind.run_real with caller-owned constraints / parameters objects (a session re-uses them from call to call)"""
+def _same_circuit(p, q):
+    return all(p.get(k) == q.get(k) for k in ("nq", "instrs")) and (p.get("qregs") or None) == (q.get("qregs") or None)
+
+
+def _run_with(payload, cons=None, opt=None, circ=None, own_reading=False):
+    """cutfind.run_real with caller-owned constraints / parameters / circuit objects (a session re-uses them from call to call);
+    `circ` is the caller's own QuantumCircuit for this request's circuit.  With `circ` or `own_reading` the returned circuit is read
+    against a second, freshly built equal circuit that find_cuts never sees (what the request was, not what the handed-in object
+    looks like after the call)"""
     from qiskit_addon_cutting import find_cuts, DeviceConstraints
     if payload.get("special") or payload.get("reuse_constraints"):
         return cutfind.run_real(payload)
     qc = cutfind.build(payload)
+    given = circ if circ is not None else (cutfind.build(payload) if own_reading else qc)
     o, width = cutfind._params(payload)
-    out, meta = find_cuts(qc, o if opt is None else opt, DeviceConstraints(width) if cons is None else cons)
+    out, meta = find_cuts(given, o if opt is None else opt, DeviceConstraints(width) if cons is None else cons)
     return {"ok": cutfind.canon_output(qc, out, meta)}
+
+
+def _fresh_generate(problem, hashseed=None):
+    """exact-weight generation for `problem` in a fresh interpreter (same canonical form and error mapping as in this process)"""
+    code = ("import sys, json; sys.path.insert(0, %r); from harness import core; from harness.props import c05; "
+            "print('RESULT' + json.dumps(core.call_real(lambda p: c05._real(p)[0], json.loads(sys.argv[1]), timeout=280)))" % str(VERIF))
+    import os
+    env = dict(os.environ)
+    if hashseed is not None:
+        env["PYTHONHASHSEED"] = str(hashseed)
+    p = subprocess.run([sys.executable, "-W", "ignore", "-c", code, json.dumps(problem)], capture_output=True, text=True, timeout=300, env=env)
+    for l in p.stdout.splitlines():
+        if l.startswith("RESULT"):
+            return json.loads(l[6:])
+    return {"error": "fresh interpreter failed: " + p.stderr[-200:]}
+
+
+def _gen_diff(x, y):
+    """where two canonical results of exact-weight generation differ"""
+    if not (isinstance(x, dict) and isinstance(y, dict) and isinstance(x.get("ok"), dict) and isinstance(y.get("ok"), dict)):
+        return f"{json.dumps(x)[:120]} vs {json.dumps(y)[:120]}"
+    x, y = json.loads(json.dumps(x["ok"])), json.loads(json.dumps(y["ok"]))
+    if x["coefficients"] != y["coefficients"]:
+        return "the coefficient lists differ"
+    if [l for l, _ in x["experiments"]] != [l for l, _ in y["experiments"]]:
+        return "the partitions are listed in a different order"
+    for (l, cx), (_, cy) in zip(x["experiments"], y["experiments"]):
+        if len(cx) != len(cy):
+            return f"partition {l}: {len(cx)} vs {len(cy)} subexperiments"
+        bad = [k for k, (u, v) in enumerate(zip(cx, cy)) if u != v]
+        if bad:
+            same_set = sorted(json.dumps(u, sort_keys=True) for u in cx) == sorted(json.dumps(v, sort_keys=True) for v in cy)
+            return (f"partition {l}: {len(bad)} of {len(cx)} subexperiments differ, first at position {bad[0]}"
+                    + (" (the same circuits in another order)" if same_set else ""))
+    return "results differ"
 
 
 def run_real(kind, payload):
@@ -231,17 +343,23 @@ def run_real(kind, payload):
     f0 = _fingerprint()
     if kind == "history":
         tgt = {k: v for k, v in payload["target"].items() if not k.startswith("_")}
-        a = call_real(lambda p: cutfind.run_real(p), tgt, timeout=300)
+        sess = payload.get("session")
+        if sess and "circuit" in sess["share"]:
+            # reference: a freshly built circuit object that no other call ever sees
+            a = call_real(lambda p: _run_with(p, own_reading=True), tgt, timeout=300)
+        else:
+            a = call_real(lambda p: cutfind.run_real(p), tgt, timeout=300)
         if _fingerprint() != f0:
             notes.append("global tables changed by the target call")
         run = cutfind.run_real
-        sess = payload.get("session")
         if sess:
             # the caller's own objects, built once (equal to the ones the reference call `a` built for itself) and handed to every call
             from qiskit_addon_cutting import DeviceConstraints
             cons = DeviceConstraints(tgt["width"]) if "constraints" in sess["share"] else None
             opt = cutfind._params(tgt)[0] if "params" in sess["share"] else None
-            run = lambda p: _run_with(p, cons, opt)   # noqa: E731
+            # the caller's own circuit object for the target's circuit: every request about that circuit is made with this one object
+            circ = cutfind.build(tgt) if "circuit" in sess["share"] else None
+            run = lambda p: _run_with(p, cons, opt, circ if (circ is not None and _same_circuit(p, tgt)) else None)   # noqa: E731
         for h in payload["history"]:
             call_real(run, h, timeout=300)
             if _fingerprint() != f0:
@@ -261,9 +379,15 @@ def run_real(kind, payload):
         if a != b:
             how = ""
             if sess:
-                names = {"constraints": "DeviceConstraints", "params": "OptimizationParameters"}
-                how = (f" (the session handed one {' and one '.join(names[s] for s in sess['share'])} object to every call; built as "
-                       f"DeviceConstraints({tgt['width']}), it now reports a width of {cons.get_qpu_width() if cons is not None else tgt['width']})")
+                names = {"constraints": "DeviceConstraints", "params": "OptimizationParameters", "circuit": "QuantumCircuit"}
+                how = f" (the session handed one {' and one '.join(names[s] for s in sess['share'])} object to every call"
+                if cons is not None:
+                    how += f"; built as DeviceConstraints({tgt['width']}), the constraints object now reports a width of {cons.get_qpu_width()}"
+                if circ is not None:
+                    n0 = len(cutfind.build(tgt).data)
+                    how += (f"; the circuit object, built with {n0} instructions and never edited by the caller, now holds {len(circ.data)}: "
+                            f"{[i.operation.name for i in circ.data]}"[:400])
+                how += ")"
             notes.append(f"result changed after the history{how}: {json.dumps(a)[:150]} -> {json.dumps(b)[:150]}{_diff(a, b)}")
         if payload.get("fresh"):
             for hs in ((None,) if not payload.get("hashseeds") else (1, 3)):
@@ -293,6 +417,14 @@ def run_real(kind, payload):
         notes.append("exact-weight generation consumed a global random generator")
     if json.dumps(a, sort_keys=True) != json.dumps(b, sort_keys=True):
         notes.append("exact-weight generation changed after the history")
+    if payload.get("fresh"):
+        # the same arguments in a fresh interpreter (optionally under given string-hash seeds): same experiments in the same order
+        for hs in (payload.get("hashseeds") or (None,)):
+            c = _fresh_generate(p, hs)
+            if json.dumps(c, sort_keys=True) != json.dumps(a, sort_keys=True):
+                notes.append(f"exact-weight generation gives another result in a fresh interpreter{'' if hs is None else ' (PYTHONHASHSEED=%d)' % hs}"
+                             f" than in this process for the same subcircuits and PauliList observables: {_gen_diff(c, a)}")
+                break
     if _fingerprint() != f0:
         notes.append("global tables changed")
     if "error" in a:
